@@ -107,3 +107,22 @@ prop("C12",
                 "output' is observed as inequality only; key length 0 is outside the property's range.",
      technique="runtime differential monitor against an independent reference implementation; exhaustive single-bit fault injection on sealed messages; canaries",
      assumptions=["XKCP transcripts in kravatte/testdata anchor the reference"])
+
+prop("C18",
+     level="exploration",
+     parts=[{"engine": "enc", "checkptr": True}],
+     floor={"quick": 5000, "thorough": 100000},
+     rule="17 codecs (common strings; certs Name/IDChunk/Certificate binary+PEM; authgrants Intent, AgMessage of every kind incl. "
+          "unknown, proxy response, proxy tube id; tubes frame and initiate frame; codex exec request through GetCmd; userauth "
+          "request framing; port-forward request; DH/signing/KEM public-key text). Three monitors per codec: generated values "
+          "with every field at boundary lengths and all enum values (decode(encode(v)) == v and nothing left over); mutated "
+          "valid encodings kept when the decoder accepts (decode(encode(decode(b))) == decode(b)); unrepresentable values "
+          "(encoder must refuse, else output||sentinel must decode to the value and leave the sentinel). Non-trivial = a value "
+          "that was encoded and decoded, or a byte string the decoder accepted; distinct by (codec, batch, index) or by bytes.",
+     level_text="Round-trip, decode-encode-decode stability and refusal-of-unrepresentable monitors over the real encoders/decoders "
+                "(unexported ones through verif-tagged accessors), field-by-field comparison (times by Unix seconds).",
+     level_note="userauth.GetInitMsg itself needs a live tube and is driven by the C11 engine; here its framing is mirrored. "
+                "Certificate.Fingerprint (a digest of the raw bytes) is not part of the compared value. Timestamps before 1970 "
+                "and IPv6 zones are outside the generated domain.",
+     technique="runtime round-trip / re-encoding-stability monitors over generated values and accepted mutated byte strings",
+     assumptions=["values compared field by field; nil and empty slices identified"])
